@@ -133,6 +133,7 @@ func (x *Run) intrinsic(fr *Frame, st *State, fn *ssa.Function, args []Val, site
 		}
 		key := x.lockKey(x.addrOf(args[0]))
 		st.held[key] = 1
+		st.ghost["assumedheld:"+key] = "1"
 		return single(st, unit), true
 	case "Closed":
 		return single(st, Val{T: sel(x.arr(st, x.chClosedFor(args[0], args[0].Ty)), args[0].T), S: SBool}), true
